@@ -122,7 +122,7 @@ func (e *eccKeyAgreement) processClientKeyExchange(hs *serverHandshakeState, ckx
 	}
 	config := hs.c.config
 
-	if len(ckx.ciphertext) == 0 {
+	if len(ckx.ciphertext) < 2 {
 		return nil, errClientKeyExchange
 	}
 
@@ -134,6 +134,10 @@ func (e *eccKeyAgreement) processClientKeyExchange(hs *serverHandshakeState, ckx
 	}
 
 	cipher := ckx.ciphertext[2:]
+	// ASN.1 SEQUENCE 头部至少 3 字节（tag + 长形式长度），见下方 length 的计算
+	if len(cipher) < 3 {
+		return nil, errClientKeyExchange
+	}
 	if cipher[0] != 0x30 {
 		return nil, errors.New("tlcp: bad client key exchange ciphertext format")
 	}
@@ -211,7 +215,10 @@ func (e *eccKeyAgreement) generateClientKeyExchange(hs *clientHandshakeState) ([
 		return nil, nil, err
 	}
 
-	pub := encCert.PublicKey.(*ecdsa.PublicKey)
+	pub, ok := encCert.PublicKey.(*ecdsa.PublicKey)
+	if !ok {
+		return nil, nil, errors.New("tlcp: server encrypt certificate key type not sm2")
+	}
 	encrypted, err := sm2.Encrypt(config.rand(), pub, preMasterSecret, sm2.ASN1EncrypterOpts)
 	if err != nil {
 		return nil, nil, err
@@ -461,6 +468,9 @@ func (ka *sm2ECDHEKeyAgreement) processServerKeyExchange(hs *clientHandshakeStat
 
 	// 验证签名值，认证对端身份
 	signedParams := skx.key[4+publicLen:]
+	if len(signedParams) < 2 {
+		return errServerKeyExchange
+	}
 	sigLen := int(signedParams[0]) << 8
 	sigLen |= int(signedParams[1])
 	if sigLen+2 > len(signedParams) {
